@@ -172,6 +172,10 @@ def do_set(s, via, path, val):
     if via in INDEX_KINDS:
         with hand.index_kind(INDEX_KINDS[via]):
             hand.assign(s.t, s.h, path, val)
+    elif via == "h-strobj":
+        import xobjects as xo
+
+        hand.assign(s.t, s.h, path, xo.String(val))  # the text given as a String OBJECT (its own size word must not travel)
     elif via in ("h", "v"):
         rt, rh = handle_for(s, via, path)
         if rt[0] == "U" and via == "v":
@@ -219,6 +223,9 @@ def events(s, opts, depth_now):
                 if via == "n" and path[-2] in ("*", "#") and len(path) < 3 and False:
                     continue
                 evs.append(("set", via, path, val))
+        if lt[0] == "Str" and opts.get("str_objects", True) and depth_now <= 1:
+            for val in leaf_candidates(lt, lv, room, n + i)[1:2] or leaf_candidates(lt, lv, room, n + i)[:1]:
+                evs.append(("set", "h-strobj", path, val))
         if depth_now == 0 and opts.get("index_kinds") and any(isinstance(p, tuple) and any(i > 0 for i in p) for p in path):
             # the same element addressed with small numpy integers (strides times index overflow their range)
             for val in leaf_candidates(lt, lv, room, n + i)[:1]:
